@@ -788,3 +788,74 @@ func (c *Ctx) containerItemsDistinct(rule string) {
 		r.Undecide(rule, "container-item:fresh-per-iteration", c.pos(f.Pos()), "no append of an item inside the decoding loop found")
 	}
 }
+
+// receiveSendsTargeted: every channel send executed on the receive goroutine (processResponse, writeRPCResponse)
+// goes to the channel registered under an id the server echoed for one request (req_msg_id / bad_msg_id): only
+// that request's caller is known to be parked on its channel.  A send to every registered channel, or to a channel
+// picked by any other key, blocks the loop for ever as soon as one of them has no reader (the key-exchange requests
+// register the shared service channel and never read it again).
+func (c *Ctx) receiveSendsTargeted(rule string) {
+	r := c.R
+	tr := an.NewTracer()
+	n := 0
+	for _, name := range []string{"processResponse", "writeRPCResponse"} {
+		f := c.fn(rule, load.RootMod, "*MTProto", name)
+		if f == nil {
+			continue
+		}
+		for _, b := range f.Blocks {
+			for _, in := range b.Instrs {
+				var ch ssa.Value
+				switch x := in.(type) {
+				case *ssa.Send:
+					ch = x.Chan
+				case *ssa.Select:
+					for _, st := range x.States {
+						if st.Dir == types.SendOnly {
+							ch = st.Chan
+						}
+					}
+				}
+				if ch == nil {
+					continue
+				}
+				n++
+				dom := "unknown"
+				if ex, ok := ch.(*ssa.Extract); ok {
+					if call, ok := ex.Tuple.(*ssa.Call); ok && strings.HasSuffix(an.CalleeName(call.Common()), "SyncIntObjectChan).Get") {
+						key := call.Call.Args[1]
+						dom = idDomain(tr, key)
+						if prm, isP := key.(*ssa.Parameter); isP && dom != "echoed" {
+							// the key is a parameter: every caller must pass an echoed id
+							all, any := true, false
+							for g := range c.P.AllFunctions() {
+								if !c.P.InRepo(g) || g.Synthetic != "" {
+									continue
+								}
+								for _, cs := range an.Calls(g) {
+									if an.StaticCallee(cs.Common) != f {
+										continue
+									}
+									any = true
+									for i, p := range f.Params {
+										if p == prm && i < len(cs.Common.Args) && idDomain(tr, cs.Common.Args[i]) != "echoed" {
+											all = false
+										}
+									}
+								}
+							}
+							if any && all {
+								dom = "echoed"
+							}
+						}
+					}
+				}
+				r.Check(dom == "echoed", rule, sprintf("receive-send:%s#%d", name, n), c.pos(in.Pos()),
+					"a send on the receive goroutine goes to a channel chosen by a key of domain '"+dom+"' (must be the id echoed for one request: only that caller is known to be reading)")
+			}
+		}
+	}
+	if n == 0 {
+		r.Undecide(rule, "receive-send", "", "no channel send found in processResponse / writeRPCResponse")
+	}
+}
